@@ -41,6 +41,7 @@ type Violation struct {
 	Msg     string    `json:"msg"`
 	Pos     string    `json:"pos"`
 	Replay  []ndEvent `json:"nondet"`
+	Alt     [][]ndEvent `json:"alt_nondet,omitempty"`
 	Notes   []string  `json:"notes,omitempty"`
 	Path    int       `json:"path"`
 }
@@ -464,6 +465,7 @@ func (x *Exec) violate(kind, msg, pos string) {
 	}
 	x.h.vioKeys[key] = true
 	v := Violation{Harness: x.h.Name, Kind: kind, Msg: msg, Pos: pos, Replay: x.modelReplay(), Path: x.h.Paths}
+	v.Alt = x.altModels()
 	v.Notes = append(v.Notes, x.notes...)
 	if len(x.schedTrace) > 0 {
 		v.Notes = append(v.Notes, "schedule: "+strings.Join(x.schedTrace, " "))
@@ -791,4 +793,53 @@ func hasUF(t *Term, seen map[int]bool) bool {
 		}
 	}
 	return false
+}
+
+// altModels asks the solver for further, deliberately "less trivial" models of the violating path
+// (numeric inputs away from 0, 1 and -1; then large values): opaque number tokens make some
+// counterexamples spurious for particular values (two different values that happen to render the
+// same text), so the check replays these alternatives before giving up on a counterexample.
+func (x *Exec) altModels() [][]ndEvent {
+	var out [][]ndEvent
+	var vars []*Term
+	for _, e := range x.ndlog {
+		if e.v != nil && e.v.w >= 8 {
+			if _, ok := x.s.defined[e.v.id]; ok {
+				vars = append(vars, e.v)
+			}
+		}
+	}
+	if len(vars) == 0 || len(vars) > 24 {
+		return nil
+	}
+	f := x.f
+	for variant := 0; variant < 3; variant++ {
+		base := x.s.level
+		for _, v := range vars {
+			var c *Term
+			switch variant {
+			case 0:
+				c = f.And(f.Not(f.Eq(v, f.Const(v.w, 0))), f.And(f.Not(f.Eq(v, f.Const(v.w, 1))), f.Not(f.Eq(v, f.Const(v.w, mask(v.w))))))
+			case 1:
+				if v.w < 16 {
+					c = f.Bin(OpUlt, f.Const(v.w, 9), v)
+				} else {
+					c = f.And(f.Bin(OpUlt, f.Const(v.w, 1000), v), f.Bin(OpUlt, v, f.Const(v.w, mask(v.w)>>2)))
+				}
+			default:
+				// odd values with a non-trivial low byte
+				c = f.Eq(f.Extract(v, 2, 0), f.Const(3, 5))
+			}
+			x.s.Push()
+			x.s.Assert(c)
+			if x.s.CheckPoison(x.s.Check()) != Sat {
+				x.s.Pop()
+			}
+		}
+		if x.s.CheckPoison(x.s.Check()) == Sat {
+			out = append(out, x.modelReplay())
+		}
+		x.s.PopTo(base)
+	}
+	return out
 }
